@@ -159,6 +159,15 @@ Proof.
 Qed.
 Print Assumptions C04_receive_sequence.
 
+(* Listener.talk and Listener.talkSub build the server-side Session with the same state as far as
+   receive() and the fragment dispatch are concerned (an empty Session.frags), so everything proved
+   for a directly registered device holds for one registered through a peer's container *)
+Theorem C04_session_constructors_agree :
+  session_of_talkSub = session_of_talk /\
+  forall clob self bs, receive_seqf_c clob self bs = receive_seq_c clob self bs.
+Proof. exact (conj (proj1 session_constructors_agree) receive_seqf_is_receive_seq). Qed.
+Print Assumptions C04_session_constructors_agree.
+
 (* what the length check at the top of cluster.done is there for: without it (cl_done_g false) the
    cluster left behind by two EMPTY parts of a group of two reaches data[0] of an empty slice *)
 Theorem C04_frag_done_guard_needed :
